@@ -1,6 +1,7 @@
 package main
 
 import (
+	"sync"
 	"fmt"
 	"time"
 
@@ -26,6 +27,11 @@ func tval(m *Machine, v Val, what string) time.Time {
 	}
 	panic(fmt.Sprintf("tval: %T in %s", v, what))
 }
+
+var (
+	locMu    sync.Mutex
+	locCache = map[string]*time.Location{}
+)
 
 func locVal(v Val) *time.Location {
 	l, _ := v.(*time.Location)
@@ -93,8 +99,42 @@ func registerTimeStubs() {
 		case "Local":
 			return Tuple{time.UTC, Iface{}}
 		}
-		inconclusive("time.LoadLocation(%q): tz database not modelled", name)
-		return nil
+		// a real tz-database zone: its offset periods around the abstract epoch are read from the Location itself
+		// (symtime.go zonePeriods); one Location per name so that values compare by pointer as natively
+		locMu.Lock()
+		defer locMu.Unlock()
+		if l, ok := locCache["tz:"+name]; ok {
+			return Tuple{l, Iface{}}
+		}
+		l, err := time.LoadLocation(name)
+		if err != nil {
+			return Tuple{(*time.Location)(nil), m.errVal(fr, err.Error())}
+		}
+		locCache["tz:"+name] = l
+		return Tuple{l, Iface{}}
+	}
+	stubs["time.LoadLocationFromTZData"] = func(m *Machine, fr *frame, fn *ssa.Function, a []Val) Val {
+		name := cStr(m, a[0], "LoadLocationFromTZData")
+		var data []byte
+		for _, x := range a[1].(Slice) {
+			c, ok := x.(int64)
+			if !ok {
+				inconclusive("LoadLocationFromTZData with symbolic data")
+			}
+			data = append(data, byte(c))
+		}
+		key := "data:" + name + ":" + string(data)
+		locMu.Lock()
+		defer locMu.Unlock()
+		if l, ok := locCache[key]; ok {
+			return Tuple{l, Iface{}}
+		}
+		l, err := time.LoadLocationFromTZData(name, data)
+		if err != nil {
+			return Tuple{(*time.Location)(nil), m.errVal(fr, err.Error())}
+		}
+		locCache[key] = l
+		return Tuple{l, Iface{}}
 	}
 	stubs["(*time.Location).String"] = func(m *Machine, fr *frame, fn *ssa.Function, a []Val) Val {
 		return locVal(a[0]).String()
